@@ -4,6 +4,7 @@ CONSTANTS
   ValidateIndices = FALSE
   GuardCombine = FALSE
   GuardControl = FALSE
+  SafeDecode = TRUE
   NoSigpipe = TRUE
   MaxHist = 4
 INVARIANTS C35_NoThrow
